@@ -430,9 +430,11 @@ def export_prefixed(pref: Prefixed) -> vlsir.Prefixed:
     prefix = export_prefix(pref.prefix)
 
     # And export the numeric part. Use Vlsir's `integer` variant for Decimal values which equal integers, and strings otherwise.
-    if pref.number == int(pref.number):
-        return vlsir.Prefixed(int64_value=int(pref.number), prefix=prefix)
-    return vlsir.Prefixed(string_value=str(pref.number), prefix=prefix)
+    # (Integers which do not fit VLSIR's 64 bits, and non-finite values, also go as strings.)
+    number = pref.number
+    if number == number.to_integral_value() and -(2**63) <= number < 2**63:
+        return vlsir.Prefixed(int64_value=int(number), prefix=prefix)
+    return vlsir.Prefixed(string_value=str(number), prefix=prefix)
 
 
 # FIXME: #54 also expose the `hdl21.primitives` as a VLSIR package
